@@ -1,4 +1,5 @@
 import CasbinVerif.Spec.Cached
+import CasbinVerif.Proofs.Cached
 /-
   C14 — The decision cache is transparent.
 
@@ -13,7 +14,7 @@ open Casbin.Cache
 /-- two different request tuples never share a cache key -/
 theorem cacheKey_injective (q₁ q₂ : List Param) (k : Bytes)
     (h₁ : cacheKey q₁ = some k) (h₂ : cacheKey q₂ = some k) : q₁ = q₂ := by
-  sorry
+  exact cacheKey_inj q₁ q₂ k h₁ h₂
 
 /-- **transparency**: whatever a cached enforcer answers to a request was the underlying enforcer's
     answer to that same request tuple — now, or at an earlier Enforce of the same tuple that is
@@ -27,35 +28,43 @@ theorem served_was_given (synced : Bool) (evs : List Ev) (i : Nat) (q : List Par
     ∃ j, j < i ∧ evs[j]? = some (.enforce q (some d)) ∧
       (∀ m ev, j < m → m < i → evs[m]? = some ev → invalidates synced q ev = false) ∧
       (ttlBefore evs j = 0 ∨ nowBefore evs i ≤ nowBefore evs j + ttlBefore evs j) := by
-  sorry
+  have h := (good_init synced).served evs i q under d hev hserved
+  simpa [Served] using h
 
 /-- an error is only reported when the underlying enforcer reports one -/
 theorem error_passthrough (synced : Bool) (evs : List Ev) (i : Nat) (q : List Param) (under : Option Bool)
     (hev : evs[i]? = some (.enforce q under))
     (hserved : (run { synced := synced } evs).2[i]? = some (some none)) : under = none := by
-  sorry
+  obtain ⟨c', hc'⟩ := run_out_step evs { synced := synced } i _ hev
+  rw [hc'] at hserved
+  exact step_enforce_error c' q under (Option.some.inj hserved)
 
 /-- every Enforce call returns -/
 theorem enforce_answers (synced : Bool) (evs : List Ev) (i : Nat) (q : List Param) (under : Option Bool)
     (hev : evs[i]? = some (.enforce q under)) :
     ∃ r, (run { synced := synced } evs).2[i]? = some (some r) := by
-  sorry
+  obtain ⟨c', hc'⟩ := run_out_step evs { synced := synced } i _ hev
+  obtain ⟨r, hr⟩ := step_enforce_some c' q under
+  exact ⟨r, by rw [hc', hr]⟩
 
 /-- a request with an uncacheable parameter bypasses the cache -/
 theorem uncacheable_bypass (c : CE) (q : List Param) (under : Option Bool) (h : cacheKey q = none) :
     (step c (.enforce q under)).2 = some under ∧ (step c (.enforce q under)).1.entries = c.entries := by
-  sorry
+  unfold step
+  simp only [h]
+  split <;> exact ⟨rfl, rfl⟩
 
 /-- with the cache off the answer is the underlying one -/
 theorem cache_off_transparent (c : CE) (q : List Param) (under : Option Bool) (h : c.enabled = false) :
     (step c (.enforce q under)).2 = some under := by
-  sorry
+  unfold step
+  simp [h]
 
 /-- after InvalidateCache / LoadPolicy / ClearPolicy nothing cached before is left, whether or not
     the cache is enabled at that moment -/
 theorem invalidation_empties (c : CE) (ev : Ev) (h : ev = .invalidate ∨ ev = .load ∨ ev = .clear) :
     (step c ev).1.entries = [] := by
-  sorry
+  rcases h with rfl | rfl | rfl <;> rfl
 
 /-! ### non-vacuity -/
 -- ("a$$b", "c", "read") and ("a", "b$$c", "read") as byte strings
